@@ -512,7 +512,7 @@ impl ErdosRenyi for AdjacencyMap {
     /// * Panics if `order` is zero.
     /// * Panics if `p` isn't in `[0, 1]`.
     fn erdos_renyi(order: usize, p: f64, seed: u64) -> Self {
-        #[cfg(graaf_verif)] use crate::verif_rt::{available_parallelism, thread};
+        #[cfg(graaf_verif)] #[allow(unused_imports, clippy::wildcard_imports)] use crate::verif_rt::shadow::*;
         assert!(order > 0, "a digraph has at least one vertex");
         assert!((0.0..=1.0).contains(&p), "p = {p} must be in [0, 1]");
 
@@ -993,7 +993,7 @@ impl RandomTournament for AdjacencyMap {
     ///
     /// Panics if `order` is zero.
     fn random_tournament(order: usize, seed: u64) -> Self {
-        #[cfg(graaf_verif)] use crate::verif_rt::{available_parallelism, spawn, Mutex};
+        #[cfg(graaf_verif)] #[allow(unused_imports, clippy::wildcard_imports)] use crate::verif_rt::shadow::*;
         assert!(order > 0, "a digraph has at least one vertex");
 
         if order == 1 {
@@ -1197,7 +1197,7 @@ impl Union for AdjacencyMap {
     /// number of arcs in the union of `self` and `other`.
     #[allow(clippy::too_many_lines)]
     fn union(&self, other: &Self) -> Self {
-        #[cfg(graaf_verif)] use crate::verif_rt::{available_parallelism, scope};
+        #[cfg(graaf_verif)] #[allow(unused_imports, clippy::wildcard_imports)] use crate::verif_rt::shadow::*;
         let lhs_vec = self
             .arcs
             .iter()
